@@ -32,6 +32,27 @@ def generate():
         if isinstance(e, ast.Attribute): return e.attr
         if isinstance(e, ast.Name): return e.id
         return None
+    READERS = {'items', 'keys', 'values', 'get', 'copy'}
+    PURE_CALLS = {'len', 'dict', 'list', 'sorted', 'iter', 'tuple', 'set', 'frozenset', 'enumerate', 'reversed', 'bool', 'any', 'all'}
+    def read_only_local(f, name):
+        """every occurrence of the local `name` in f is its definition or a read that cannot leak or change the object:
+        x[k] (load), iteration, `k in x`, x.items()/keys()/values()/get()/copy(), len(x)/dict(x)/list(x)/sorted(x)..."""
+        parent = {}
+        for n in ast.walk(f):
+            for c in ast.iter_child_nodes(n): parent[c] = n
+        for n in ast.walk(f):
+            if isinstance(n, ast.Name) and n.id == name:
+                p = parent.get(n)
+                if isinstance(n.ctx, ast.Store):
+                    if isinstance(p, ast.Assign) and n in p.targets: continue
+                    return False
+                if isinstance(p, ast.Subscript) and p.value is n and isinstance(p.ctx, ast.Load): continue
+                if isinstance(p, (ast.For, ast.comprehension)) and p.iter is n: continue
+                if isinstance(p, ast.Compare): continue
+                if isinstance(p, ast.Attribute) and p.value is n and p.attr in READERS and isinstance(parent.get(p), ast.Call) and parent[p].func is p: continue
+                if isinstance(p, ast.Call) and n in p.args and isinstance(p.func, ast.Name) and p.func.id in PURE_CALLS: continue
+                return False
+        return True
     for m, tree in trees.items():
         funcs = []
         for n in ast.walk(tree):
@@ -44,7 +65,9 @@ def generate():
                     if isinstance(src, (ast.Attribute, ast.Name)) and root_attr(src) in cnames and not (isinstance(src, ast.Name) and src.id not in [c[2] for c in containers if c[1] == '']):
                         for t in st.targets:
                             ta = root_attr(t)
-                            if ta and not isinstance(t, ast.Subscript): aliases.append((m, f.name, ta, root_attr(src)))
+                            if ta and not isinstance(t, ast.Subscript):
+                                if isinstance(t, ast.Name) and read_only_local(f, t.id): continue      # a local name that is only read never exposes the container
+                                aliases.append((m, f.name, ta, root_attr(src)))
         alias_targets = set(a[2] for a in aliases)
         watch = cnames | alias_targets
         for f in funcs:
